@@ -55,6 +55,9 @@ def scenarios(tier):
                     # a dead peer whose socket also refuses the TestRequest: silent, and the write of the probe fails
                     for fault in ("reset-once", "reset-always", "pipe-always", "runtime-always"):
                         out.append((h, role, ph, "silent-write-fails", fault))
+                    # a silent peer while the local application keeps sending (what goes OUT says nothing about the peer being alive)
+                    for every in (0.3, 0.45):
+                        out.append((h, role, ph, "silent-while-sending", round(every * h, 3)))
                     # the same obligations while a sequence gap is open (the peer's frames arrive numbered ahead)
                     out.append((h, role, ph, "gap:testreq-ahead", 0))
                     out.append((h, role, ph, "gap:answer-ahead", 0))
@@ -210,6 +213,36 @@ async def scenario(acc, clock, sc, cid, rnd=None):
                     s.V("silent:disconnect-early", f"disconnected {dt:.3f}s after the last inbound frame, h={h}")
             if s.ep.disconnects != 1 and s.disconnected():
                 s.V("watchdog:on_disconnect-count", f"on_disconnect called {s.ep.disconnects} times")
+            check_outstanding(s)
+            return True
+        if kind == "silent-while-sending":
+            from asyncfix import FIXMessage
+            t0 = s.last_feed()
+            t_end = s.clock.now + 3 * h + 6
+            k = 0
+            while s.clock.now < t_end and not s.disconnected():
+                await asyncio.sleep(min(par, t_end - s.clock.now))
+                if s.disconnected():
+                    break
+                k += 1
+                try:
+                    await s.ep.send_msg(FIXMessage("D", {11: f"out{k}", 55: "X"}))
+                except FIXConnectionError:
+                    break
+            await settle()
+            acc.oracle("silent:testrequest-time")
+            acc.add("orders_sent_into_the_silence", k)
+            if not s.sent_tr:
+                s.V("silent:no-testrequest:while-sending", f"peer silent for {3 * h + 6}s while the application sent an order every {par}s: no TestRequest was sent")
+            else:
+                dt = s.sent_tr[0][0] - t0
+                if not (h - 1 - eps <= dt <= h + 1 + eps):
+                    s.V("silent:testrequest-" + ("early" if dt < h - 1 else "late") + ":while-sending", f"TestRequest {dt:.3f}s after the last inbound frame, h={h}")
+            acc.oracle("silent:disconnect-time")
+            if not s.disconnected():
+                s.V("silent:not-disconnected:while-sending", f"peer silent for {3 * h + 6}s (application sending every {par}s): state {s.ep.connection_state.name}")
+            elif s.tdisc is not None and s.tdisc - t0 > 3 * h + 2 + eps:
+                s.V("silent:disconnect-late", f"disconnected {s.tdisc - t0:.3f}s after the last inbound frame, h={h}")
             check_outstanding(s)
             return True
         if kind == "silent-write-fails":
